@@ -7,9 +7,11 @@ enqueue jobs or terminate the pool.
 namespace TlxVerif.C10
 set_option linter.unusedSimpArgs false
 
-/-- job bodies only enqueue jobs, terminate the pool, read `done()` / `idle()`, or throw -/
+/-- job bodies and the destructors of job closures only enqueue jobs, terminate the pool, read `done()` /
+    `idle()`, or throw: they do not call `loop_until_*` -/
 def JobsOk (cfg : Cfg) : Prop :=
-  ∀ code a, a ∈ cfg.prog code → (∃ c, a = .enq c) ∨ a = .term ∨ a = .obsDone ∨ a = .obsIdle ∨ a = .throw
+  ∀ code a, (a ∈ cfg.prog code ∨ a ∈ cfg.dprog code) →
+    (∃ c, a = .enq c) ∨ a = .term ∨ a = .obsDone ∨ a = .obsIdle ∨ a = .throw
 
 /-- roles and the size of the thread table never change -/
 theorem role_frame {cfg : Cfg} {s : State} {t c : Nat} {o} (h : step cfg s t c = some o) :
@@ -873,16 +875,18 @@ theorem cw_self {cfg : Cfg} {s : State} {t c : Nat} {o} (h : step cfg s t c = so
 theorem worker_not_waiting {cfg : Cfg} (hj : JobsOk cfg) {s : State} (hb : InvB cfg s) {u k : Nat} {cp : CPc}
     (hr : (getT s.thr u).role = .worker) (hp : (getT s.thr u).pc = .call k cp) : cp ≠ .wait ∧ cp ≠ .waiting := by
   obtain ⟨a, ha, hok⟩ := callOk_call (hb.call u) hp
-  have hmem : a ∈ fullScript cfg (getT s.thr u) := mem_script (List.mem_of_getElem? ha)
-  unfold fullScript at hmem
-  rw [hr] at hmem
-  simp only at hmem
-  cases hjob : (getT s.thr u).job with
-  | none => simp [hjob] at hmem
-  | some j =>
-    simp only [hjob] at hmem
-    rcases hj j.code a hmem with ⟨n, rfl⟩ | rfl | rfl | rfl | rfl <;>
-      (constructor <;> (intro hc; subst hc; simp at hok))
+  have hmem := (mem_script (List.mem_of_getElem? ha)).2
+  have hacts : (∃ c, a = .enq c) ∨ a = .term ∨ a = .obsDone ∨ a = .obsIdle ∨ a = .throw := by
+    rcases hmem with hmem | ⟨j, _, _, hmem⟩
+    · unfold fullScript at hmem
+      rw [hr] at hmem
+      simp only at hmem
+      cases hjob : (getT s.thr u).job with
+      | none => simp [hjob] at hmem
+      | some j => simp only [hjob] at hmem; exact hj j.code a (Or.inl hmem)
+    · exact hj j.code a (Or.inr hmem)
+  rcases hacts with ⟨n, rfl⟩ | rfl | rfl | rfl | rfl <;>
+    (constructor <;> (intro hc; subst hc; simp at hok))
 
 theorem cw_step {cfg : Cfg} (hj : JobsOk cfg) {s : State} {t c : Nat} {o} (h : step cfg s t c = some o)
     (hi : Idx cfg s) (hb : InvB cfg s) (hw : InvW cfg s) (hm : mainOk cfg s) (hcw : CW cfg s) : CW cfg o.st := by
@@ -1243,14 +1247,135 @@ theorem thrown_step {cfg : Cfg} {s : State} {t c : Nat} {o} (h : step cfg s t c 
   all_goals (first
     | exact hi
     | (intro id hid
-       simp only [endOfScriptThrown, endOfScriptFin] at hid ⊢
-       split at hid <;> (try split at hid) <;> simp_all <;>
+       simp only [bodyEndThrown, bodyEndFin] at hid ⊢
+       split at hid <;> split <;> simp_all <;>
          (first | (rcases hid with hid | hid <;> simp_all) | skip)))
 
 theorem reachable_thrown {cfg : Cfg} {s : State} (h : Reachable cfg s) : ∀ id, id ∈ s.thrown → id ∈ s.finished := by
   induction h with
   | init => intro id hid; simp [init] at hid
   | step _ hs ih => exact thrown_step hs ih
+
+
+/-! ### destruction of the job object -/
+
+theorem mem_bodyEndFin {cfg : Cfg} {s : State} {th : Thread} {k : Nat} {id : Nat} (h : id ∈ s.finished) :
+    id ∈ bodyEndFin cfg s th k := by
+  unfold bodyEndFin; split <;> simp [h]
+
+theorem bodyEndFin_self {cfg : Cfg} {s : State} {th : Thread} {k : Nat} (h : bodyEnds cfg th k = true) :
+    jobId th ∈ bodyEndFin cfg s th k := by
+  unfold bodyEndFin; simp [h]
+
+/-- `finished` only grows -/
+theorem finished_mono {cfg : Cfg} {s : State} {t c : Nat} {o} (h : step cfg s t c = some o) :
+    ∀ id, id ∈ s.finished → id ∈ o.st.finished := by
+  pool_step_cases h
+  all_goals (first
+    | (intro id hid; exact hid)
+    | (intro id hid; exact mem_bodyEndFin hid))
+
+/-- a worker that is past the body of its job (inside the destructor of the closure) has its job in `finished` -/
+def BodyDone (cfg : Cfg) (s : State) : Prop :=
+  ∀ w k c, (getT s.thr w).role = .worker → (getT s.thr w).pc = .call k c →
+    (bodyScript cfg (getT s.thr w)).length ≤ k → jobId (getT s.thr w) ∈ s.finished
+
+@[simp] theorem bodyScript_mk_pc (cfg : Cfg) (th : Thread) (pc : Pc) :
+    bodyScript cfg { role := th.role, pc := pc, job := th.job } = bodyScript cfg th := rfl
+
+theorem bodyDone_step {cfg : Cfg} {s : State} {t c : Nat} {o} (h : step cfg s t c = some o) (hb : InvB cfg s)
+    (hi : BodyDone cfg s) :
+    BodyDone cfg o.st := by
+  intro w k cp hr hp hk
+  by_cases hwt : t = w
+  · subst hwt
+    have hold := hi t
+    have hrole := hb.role t
+    revert hr hp hk
+    pool_step_cases h
+    all_goals (
+      have hlt := lt_of_getElem? ‹s.thr[t]? = some _›
+      have hth := getT_of_getElem? ‹s.thr[t]? = some _›
+      rw [hth] at hold hrole
+      simp only [setThr_thr, getT_set, hlt, and_self, if_true])
+    all_goals (first
+      | (intro hr hp hk; simp at hp; done)
+      | skip)
+    all_goals (
+      intro hr hp hk
+      (try simp at hp)
+      first
+      | (exfalso; simp_all; done)
+      | (obtain ⟨rfl, _⟩ := hp
+         first
+         | exact hold _ _ hr ‹_ = Pc.call _ _› hk
+         | exact mem_bodyEndFin (hold _ _ hr ‹_ = Pc.call _ _› hk))
+      | (-- the next call of the script: either the body ended earlier, or it ends right here
+         obtain ⟨rfl, _⟩ := hp
+         simp only [bodyScript_mk_pc] at hk
+         by_cases hle : (bodyScript cfg ‹Thread›).length ≤ ‹Nat›
+         · exact mem_bodyEndFin (hold _ _ hr ‹_ = Pc.call _ _› hle)
+         · apply bodyEndFin_self
+           simp [bodyEnds, hr]; omega)
+      | (-- the first call of the job: the body is empty
+         obtain ⟨rfl, _⟩ := hp
+         simp only [bodyScript_mk_pc] at hk
+         apply bodyEndFin_self
+         simp [bodyEnds, hr]; omega))
+  · rw [other_frame h w hwt] at hr hp hk ⊢
+    exact finished_mono h _ (hi w k cp hr hp hk)
+
+/-- every closure destroyed by a worker belongs to a job whose body has ended -/
+theorem destroyed_step {cfg : Cfg} {s : State} {t c : Nat} {o} (h : step cfg s t c = some o) (hb : InvB cfg s)
+    (hbd : BodyDone cfg s) (hi : ∀ id, id ∈ s.destroyed → id ∈ s.finished) :
+    ∀ id, id ∈ o.st.destroyed → id ∈ o.st.finished := by
+  have hold := hbd t
+  have hrole := hb.role t
+  have hmono := finished_mono h
+  pool_step_cases h
+  all_goals (first
+    | (intro id hid; exact hmono id (hi id hid))
+    | skip)
+  all_goals (
+    have hlt := lt_of_getElem? ‹s.thr[t]? = some _›
+    have hth := getT_of_getElem? ‹s.thr[t]? = some _›
+    rw [hth] at hold hrole
+    intro id hid
+    simp only [endOfScriptDes] at hid
+    split at hid
+    · rename_i hr
+      simp only [List.mem_append, List.mem_singleton] at hid
+      rcases hid with hid | rfl
+      · exact mem_bodyEndFin (hi id hid)
+      · -- the script is over: the body ended earlier or ends right here
+        first
+        | (by_cases hle : (bodyScript cfg ‹Thread›).length ≤ ‹Nat›
+           · exact mem_bodyEndFin (hold _ _ hr ‹_ = Pc.call _ _› hle)
+           · apply bodyEndFin_self
+             have hlen : (script cfg ‹Thread›).length = (bodyScript cfg ‹Thread›).length + (dtorScript cfg ‹Thread›).length := by
+               simp [script]
+             simp [bodyEnds, hr]; omega)
+        | (apply bodyEndFin_self
+           have hemp : script cfg ‹Thread› = [] := by assumption
+           have hlen := congrArg List.length hemp
+           simp only [script, List.length_append, List.length_nil] at hlen
+           have h0 : (bodyScript cfg ‹Thread›).length = 0 := by omega
+           simp [bodyEnds, hr, h0])
+    · exact mem_bodyEndFin (hi id hid))
+
+structure FinInv (cfg : Cfg) (s : State) : Prop where
+  bodyDone : BodyDone cfg s
+  desFin : ∀ id, id ∈ s.destroyed → id ∈ s.finished
+
+theorem reachable_finInv {cfg : Cfg} {s : State} (h : Reachable cfg s) : FinInv cfg s := by
+  induction h with
+  | init =>
+    refine ⟨?_, by intro id hid; simp [init] at hid⟩
+    intro w k c _ hp
+    rcases getT_init_pc cfg w with h | h <;> rw [h] at hp <;> simp at hp
+  | step hr hs ih =>
+    have hb := reachable_invB hr
+    exact ⟨bodyDone_step hs hb ih.bodyDone, destroyed_step hs hb ih.bodyDone ih.desFin⟩
 
 
 end TlxVerif.C10
